@@ -490,6 +490,11 @@ class XMLSchemaBase(XsdValidator, ElementPathMixin[Union[SchemaType, XsdElement]
         return len(self.elements)
 
     def __copy__(self) -> SchemaType:
+        if self.built:
+            # The components refer to the original schema, so the copy can't compute
+            # its validation status by itself: copy the cached status of the original.
+            _ = self.validation_attempted
+
         schema: SchemaType = object.__new__(self.__class__)
         schema.__dict__.update(
             (k, v.copy() if isinstance(v, (list, dict)) else v)
